@@ -297,6 +297,9 @@ func (bucket *Bucket) dropCollection(name sgbucket.DataStoreNameImpl) error {
 	bucket.mutex.Lock()
 	defer bucket.mutex.Unlock()
 
+	if bucket.closed {
+		return ErrBucketClosed // a closed handle must not stop the collection's feeds either
+	}
 	if c := bucket.collections[name]; c != nil {
 		c.close()
 		delete(bucket.collections, name)
